@@ -116,6 +116,38 @@ def run(rep, tier, seed):
         if r.violated:
             raise common.MachineryError("MC_C16: spec-level invariant %s violated\n%s" % (r.violated, r.counterexample()[:2000]))
         cases += r.tagged("CASE")
+    # longer programs over more wires, chosen by the harness; TLC (Oracle_C16) checks the specification's invariants on each and
+    # computes the reachability relation they are compared with
+    import os, random
+    rng = random.Random(seed + 4711)
+    nsim, lsim, nw = (2000, 10, 5) if tier == "quick" else (30000, 12, 6)
+    sim = []
+    for _ in range(nsim):
+        ops = []
+        for _ in range(rng.randrange(4, lsim + 1)):
+            modes = rng.sample(range(nw), rng.choice([1, 1, 2, 2, 3]))
+            kind = rng.choice(["none", "plain", "par", "pos", "kw", "none"])
+            regs = []
+            if kind in ("pos", "kw"):
+                free = [w for w in range(nw) if w not in modes]
+                regs = [rng.choice(free)]
+            ops.append({"name": {"none": "G", "plain": "G", "par": "T"}.get(kind, "R"), "modes": modes, "regs": regs, "args": kind})
+        sim.append({"ops": ops})
+    path = os.path.join(common.scratch(), "c16cases.json")
+    with open(path, "w") as fh:
+        json.dump(sim, fh)
+    r = common.run_tlc("Oracle_C16", "INIT Init\nNEXT Next\nINVARIANT EdgesForward\nINVARIANT ReachIffChain\nCONSTRAINT Emit\n", env={"CASE_FILE": path}, timeout=3000)
+    common.require_ok(r, "Oracle_C16")
+    rep.add_tlc(r, "Oracle_C16: %d random programs of 4..%d operations over %d wires" % (nsim, lsim, nw))
+    if r.violated:
+        raise common.MachineryError("Oracle_C16: spec-level invariant %s violated\n%s" % (r.violated, r.counterexample()[:2000]))
+    got = {o["k"]: o for o in r.tagged("ORACLE")}
+    if len(got) != len(sim):
+        raise common.MachineryError("Oracle_C16: %d verdicts for %d cases" % (len(got), len(sim)))
+    for i, c in enumerate(sim):
+        c["reach"] = got[i + 1]["reach"]
+    rep.cov["random_long_programs"] = len(sim)
+    cases += sim
     seen = {}
     for c in cases:
         seen.setdefault(json.dumps(c["ops"], sort_keys=True), c)
